@@ -421,7 +421,12 @@ class PDFStandardSecurityHandler:
         return result[:n]
 
     def authenticate(self, password: str) -> Optional[bytes]:
-        password_bytes = password.encode("latin1")
+        try:
+            password_bytes = password.encode("latin1")
+        except UnicodeEncodeError:
+            # Passwords of revisions 2 to 4 are limited to Latin-1 characters,
+            # so this cannot be the right one.
+            return None
         key = self.authenticate_user_password(password_bytes)
         if key is None:
             key = self.authenticate_owner_password(password_bytes)
